@@ -219,3 +219,237 @@ async fn reopen_enum_quick() {
 async fn reopen_enum_thorough() {
 	reopen_enum_impl(4, "reopen_enum_thorough").await;
 }
+
+// ------------------------------------------------------------------------------------------------
+// C14 exploration (bounded, real Tree on disk; no function of checkpoint/restore is under a contract):
+// a checkpoint taken between operations contains exactly the data committed before it; restoring it makes every
+// read return that state and nothing written afterwards; the checkpoint directory opens as a database with the
+// same content; after the restore new commits are visible, win over restored data, survive reopen, and reads never
+// return data of the discarded timeline (also not after flush / compaction / reopen).
+// Bound (stated): programs of <= `maxlen` operations from {set k0|k1, delete k0|k1, flush, compact, checkpoint,
+// restore (last checkpoint), reopen}, at least one checkpoint and one restore, level_count 3, default options
+// (vlog off) and with the value log on (threshold 16 bytes, long values).
+#[derive(Clone, Copy, Debug, PartialEq)]
+enum KOp {
+	Set(u8),
+	Del(u8),
+	Flush,
+	Compact,
+	Checkpoint,
+	Restore,
+	Reopen,
+}
+
+async fn checkpoint_enum_impl(maxlen: usize, name: &str) {
+	use crate::compaction::leveled::Strategy;
+	use crate::TreeBuilder;
+	let mut alpha = Vec::new();
+	for k in 0..2u8 {
+		alpha.push(KOp::Set(k));
+		alpha.push(KOp::Del(k));
+	}
+	alpha.extend_from_slice(&[KOp::Flush, KOp::Compact, KOp::Checkpoint, KOp::Restore, KOp::Reopen]);
+	let mut cases = 0u64;
+	let mut nontrivial = 0u64;
+	let mut failures: Vec<String> = Vec::new();
+	let mut samples: Vec<String> = Vec::new();
+	for vlog in [false, true] {
+		for len in 2..=maxlen {
+			for code in 0..alpha.len().pow(len as u32) {
+				let mut ops = Vec::new();
+				let mut x = code;
+				for _ in 0..len {
+					ops.push(alpha[x % alpha.len()]);
+					x /= alpha.len();
+				}
+				// a restore needs an earlier checkpoint; keep programs with at least one checkpoint followed by a restore
+				let first_cp = ops.iter().position(|o| *o == KOp::Checkpoint);
+				let ok = match first_cp {
+					Some(i) => ops[i + 1..].contains(&KOp::Restore) && !ops[..i].contains(&KOp::Restore),
+					None => false,
+				};
+				if !ok {
+					continue;
+				}
+				cases += 1;
+				let dir = tempdir::TempDir::new("verif_c14").unwrap();
+				let dbdir = dir.path().join("db");
+				let build = |p: &std::path::Path| {
+					let mut b = TreeBuilder::new().with_path(p.to_path_buf()).with_level_count(3);
+					if vlog {
+						b = b.with_enable_vlog(true).with_vlog_value_threshold(16);
+					}
+					b.build_with_options()
+				};
+				let (mut tree, opts) = build(&dbdir).unwrap();
+				let mut o = (*opts).clone();
+				o.level0_max_files = 1;
+				let strat = Arc::new(Strategy::from_options(Arc::new(o)));
+				let val = |i: usize| -> Vec<u8> { if vlog { format!("value-{i}-{}", "x".repeat(40)).into_bytes() } else { format!("v{i}").into_bytes() } };
+				let mut model: [Option<Vec<u8>>; 2] = [Some(val(999)), None];
+				{
+					let mut t = tree.begin().unwrap();
+					t.set(b"k0".to_vec(), val(999)).unwrap();
+					t.commit().await.unwrap();
+				}
+				let mut cp: Option<(std::path::PathBuf, [Option<Vec<u8>>; 2])> = None;
+				let mut ncp = 0;
+				let mut bad: Option<String> = None;
+				let check = |tree: &crate::Tree, model: &[Option<Vec<u8>>; 2], what: &str| -> Option<String> {
+					let r = tree.begin().unwrap();
+					for k in 0..2u8 {
+						match r.get(vec![b'k', b'0' + k]) {
+							Ok(got) => {
+								if got != model[k as usize] {
+									return Some(format!("{what}: key k{k} reads {:?}, expected {:?}", got.as_ref().map(|b| String::from_utf8_lossy(b).to_string()), model[k as usize].as_ref().map(|b| String::from_utf8_lossy(b).to_string())));
+								}
+							}
+							Err(e) => return Some(format!("{what}: get k{k} failed: {e}")),
+						}
+					}
+					None
+				};
+				for (i, op) in ops.iter().enumerate() {
+					match *op {
+						KOp::Set(k) => {
+							let v = val(i);
+							let mut t = tree.begin().unwrap();
+							t.set(vec![b'k', b'0' + k], v.clone()).unwrap();
+							if let Err(e) = t.commit().await {
+								bad = Some(format!("op #{i} commit failed: {e}"));
+							}
+							model[k as usize] = Some(v);
+						}
+						KOp::Del(k) => {
+							let mut t = tree.begin().unwrap();
+							t.delete(vec![b'k', b'0' + k]).unwrap();
+							if let Err(e) = t.commit().await {
+								bad = Some(format!("op #{i} commit failed: {e}"));
+							}
+							model[k as usize] = None;
+						}
+						KOp::Flush => {
+							let _ = tree.flush();
+						}
+						KOp::Compact => {
+							let _ = tree.compact(strat.clone());
+						}
+						KOp::Checkpoint => {
+							ncp += 1;
+							let p = dir.path().join(format!("cp{ncp}"));
+							match tree.create_checkpoint(&p) {
+								Ok(_) => cp = Some((p, model.clone())),
+								Err(e) => bad = Some(format!("op #{i} create_checkpoint failed: {e}")),
+							}
+						}
+						KOp::Restore => {
+							if let Some((p, m)) = cp.clone() {
+								match tree.restore_from_checkpoint(&p) {
+									Ok(_) => model = m,
+									Err(e) => bad = Some(format!("op #{i} restore_from_checkpoint failed: {e}")),
+								}
+							}
+						}
+						KOp::Reopen => {
+							if let Err(e) = tree.close().await {
+								bad = Some(format!("op #{i} close failed: {e}"));
+							} else {
+								drop(tree);
+								match build(&dbdir) {
+									Ok((t, _)) => tree = t,
+									Err(e) => {
+										bad = Some(format!("op #{i} reopen failed: {e}"));
+										// cannot continue without a tree
+										let (t, _) = build(&dir.path().join("scratch")).unwrap();
+										tree = t;
+									}
+								}
+							}
+						}
+					}
+					if bad.is_none() {
+						bad = check(&tree, &model, &format!("after op #{i} {:?}", op));
+					}
+					if bad.is_some() {
+						break;
+					}
+				}
+				// the checkpoint directory itself opens as a database with the checkpointed content
+				if bad.is_none() {
+					if let Some((p, m)) = cp.clone() {
+						match build(&p) {
+							Err(e) => bad = Some(format!("the checkpoint directory does not open as a database: {e}")),
+							Ok((t, _)) => {
+								bad = check(&t, &m, "checkpoint directory opened as a database");
+								let _ = t.close().await;
+							}
+						}
+					}
+				}
+				// after the program: a new commit is visible, wins over restored data and survives flush + reopen
+				if bad.is_none() {
+					let v = val(777);
+					let mut t = tree.begin().unwrap();
+					t.set(b"k1".to_vec(), v.clone()).unwrap();
+					if let Err(e) = t.commit().await {
+						bad = Some(format!("commit after the program failed: {e}"));
+					}
+					model[1] = Some(v);
+					if bad.is_none() {
+						bad = check(&tree, &model, "after a commit following the program");
+					}
+					if bad.is_none() {
+						let _ = tree.flush();
+						let _ = tree.compact(strat.clone());
+						bad = check(&tree, &model, "after flush + compaction following the program");
+					}
+					if bad.is_none() {
+						let _ = tree.close().await;
+						drop(tree);
+						match build(&dbdir) {
+							Ok((t, _)) => {
+								bad = check(&t, &model, "after the final reopen");
+								tree = t;
+							}
+							Err(e) => {
+								bad = Some(format!("final reopen failed: {e}"));
+								let (t, _) = build(&dir.path().join("scratch2")).unwrap();
+								tree = t;
+							}
+						}
+					}
+				}
+				let _ = tree.close().await;
+				let restore_pos = ops.iter().position(|o| *o == KOp::Restore).unwrap_or(0);
+				let wrote_between = first_cp.map_or(false, |c| ops[c + 1..restore_pos.max(c + 1)].iter().any(|o| matches!(o, KOp::Set(_) | KOp::Del(_))));
+				if wrote_between {
+					nontrivial += 1;
+					if samples.len() < 3 && len == maxlen {
+						samples.push(format!("\"vlog={vlog} {:?}\"", ops));
+					}
+				}
+				if let Some(b) = bad {
+					if failures.len() < 6 {
+						failures.push(format!("{{\"vlog\":{vlog},\"program\":\"{:?}\",\"mismatch\":{:?}}}", ops, b));
+					}
+				}
+			}
+		}
+	}
+	println!(
+		"REPLAY-RESULT {{\"driver\":\"levels::{name}\",\"cases\":{cases},\"distinct_nontrivial\":{nontrivial},\"samples\":[{}],\"failures\":[{}]}}",
+		samples.join(","),
+		failures.join(",")
+	);
+	assert!(failures.is_empty());
+}
+
+#[tokio::test(flavor = "multi_thread", worker_threads = 2)]
+async fn checkpoint_enum_quick() {
+	checkpoint_enum_impl(4, "checkpoint_enum_quick").await;
+}
+
+#[tokio::test(flavor = "multi_thread", worker_threads = 2)]
+async fn checkpoint_enum_thorough() {
+	checkpoint_enum_impl(5, "checkpoint_enum_thorough").await;
+}
